@@ -167,12 +167,16 @@ def refused (o : UObs) : Bool := o.val == .err "illegal" && o.ran.isEmpty && o.w
 
 def sendable (line : Bytes) : Bool := !forbidden Params.ubootBlacklist (line ++ [CR])
 
+/-- the line holds a key the console's line editor acts on: it must never get as far as the console -/
+def hasSpecial (line : Bytes) : Bool := Quote.forbidden special line
+
 /-- **C19** for one call, against the reference environment `env` -/
 def specOp (c : UCase) (env : List (Bytes × Bytes)) (op : UOp) (o : UObs) : Verdict :=
   match op with
   | .cmd k args out status =>
     if !sendable (Hush.escape args) then
       (if refused o then .ok env else .bad)              -- rejected; nothing reached the console
+    else if hasSpecial (Hush.escape args) then .bad      -- … and it must be rejected
     else if args.isEmpty || !args.all printableB then .stop
     else
       let wins := cmdWins c.prompt args out status
@@ -186,6 +190,7 @@ def specOp (c : UCase) (env : List (Bytes × Bytes)) (op : UOp) (o : UObs) : Ver
         if v && o.ran == [.argv args, .status] then .ok env else .bad
   | .env var (some x) =>
     if !sendable (Hush.escape (setenvArgs var x)) then (if refused o then .ok env else .bad)
+    else if hasSpecial (Hush.escape (setenvArgs var x)) then .bad
     else if !(printableB var && nameOk var && printableB x) then .stop
     else
       let wins := envSetWins c.prompt var x
@@ -196,6 +201,7 @@ def specOp (c : UCase) (env : List (Bytes × Bytes)) (op : UOp) (o : UObs) : Ver
       else .bad
   | .env var none =>
     if !sendable (Hush.escape (printenvArgs var)) then (if refused o then .ok env else .bad)
+    else if hasSpecial (Hush.escape (printenvArgs var)) then .bad
     else if !printableB var then .stop
     else
       let cur := envGet env var
